@@ -193,6 +193,10 @@ func newWorld(g int) *world {
 	return w
 }
 
+// reqHosts: the Host of the request, chosen with the remote address: the record carries it as it came (port, IPv6
+// literal, trailing dot, upper case)
+var reqHosts = []string{"example.test", "example.test:8080", "[::1]:8080", "example.test.", "EXAMPLE.test:80"}
+
 var remotes = []string{"192.0.2.7:4711", "[2001:db8::7]:4711", "garbage", "[fe80::1%eth0]:4711", "[::ffff:192.0.2.9]:80"}
 
 func request(kind int, remote string) (string, string) {
@@ -290,12 +294,13 @@ func (w *world) evalStep(g int, st Step) (string, string) {
 	w.beh = st.Beh
 	desc := fmt.Sprintf("%s, request %s %s (%s, handler behaviour %+v, remote %s)", gNames[g], method, path, kNames[st.Kind], st.Beh, remotes[st.Remote])
 	serve := func(f *fox.Router) (rw *fx.RW, pv any) {
-		r := fx.Req(method, "example.test", path)
+		host := reqHosts[st.Remote%len(reqHosts)]
+		r := fx.Req(method, host, path)
 		if raw, ok := rawTargets[st.Kind]; ok {
-			r = fx.ReqRaw(method, "example.test", path, raw, "")
+			r = fx.ReqRaw(method, host, path, raw, "")
 		}
 		if st.Kind == kQuery {
-			r = fx.ReqRaw(method, "example.test", path, "", "q=1&path=/other")
+			r = fx.ReqRaw(method, host, path, "", "q=1&path=/other")
 		}
 		r.RemoteAddr = remotes[st.Remote]
 		rw = fx.NewRW()
@@ -345,7 +350,7 @@ func (w *world) evalStep(g int, st Step) (string, string) {
 	if r.attrs["status"] != strconv.Itoa(wantStatus) {
 		return "wrong-status", fmt.Sprintf("record status=%s, response status %d: %s", r.attrs["status"], wantStatus, desc)
 	}
-	if r.attrs["method"] != method || r.attrs["host"] != "example.test" || r.attrs["path"] != path {
+	if r.attrs["method"] != method || r.attrs["host"] != reqHosts[st.Remote%len(reqHosts)] || r.attrs["path"] != path {
 		return "wrong-request-line", fmt.Sprintf("record method=%s host=%s path=%s: %s", r.attrs["method"], r.attrs["host"], r.attrs["path"], desc)
 	}
 	if wantMsg, ok := expectedMsg(g, st.Kind, remotes[st.Remote]); ok && r.msg != wantMsg {
